@@ -82,7 +82,7 @@ def main():
         "setup_cmd": "python3 lib/setup.py && python3 lib/selftest.py",
         "hooks": {
             "guard": "THEO_VERIF",
-            "enable": "harness/CMakeLists.txt compiles /repo's sources with -DTHEO_VERIF (read-only accessors at the end of class Theo::VM in VM/include/vm.hpp)",
+            "enable": "harness/CMakeLists.txt compiles /repo's sources with -DTHEO_VERIF (read-only accessors at the end of class Theo::VM in VM/include/vm.hpp; the macro pass counter Theo::verif_macro_passes in Compiler/include/parse.hpp and Compiler/src/macro.cpp, read by the harness watchdog)",
             "baseline_off_cmd": "cmake -G Ninja -B /repo/_build -S /repo && cmake --build /repo/_build && ctest --test-dir /repo/_build -j8 --timeout 900",
             "source_commits": hooks_commits,
             "add_only": True,
@@ -90,6 +90,8 @@ def main():
         "engines": [
             {"name": "tlc", "path": "/opt/veriftools/tla/tla2tools.jar", "serves_properties": sorted(CHECKS),
              "kind_free_text": "explicit-state model checker for the TLA+ specifications under /verif/spec"},
+            {"name": "apalache", "path": "/opt/veriftools/apalache", "serves_properties": ["C19"],
+             "kind_free_text": "symbolic model checker: inductive-invariant steps of TheoFrames.tla (FramesExact for unbounded frame sizes)"},
             {"name": "th", "path": "/verif/harness", "serves_properties": sorted(CHECKS),
              "kind_free_text": "C++ conformance harness built from /repo's working tree (plain, asan, tsan, flexgen variants)"},
         ],
